@@ -1,5 +1,6 @@
 /- Driver for the access-list file / reload traces (C11). -/
 import Aquatic.Model.Acl
+import Aquatic.Spec.AclFile
 import Driver.Util
 
 open Aquatic Drv
@@ -43,7 +44,17 @@ def step (s : St) (ts : List String) : St × Verdict × List String :=
       ++ (if !u.2 ∧ !s.list.isEmpty then ["failed-reload-with-nonempty-previous-list"] else [])
       ++ (match file with | some ls => (if ls.any (fun l => match l with | some c => (trimWs c).isEmpty | none => false) then ["blank-lines"] else []) | none => [])
     -- both observation paths (arc-swap, per-worker cache) must show the same, and the model's
+    -- the statement of C11 itself (Spec/AclFile), not the model of the parser
+    let sp := AclSpec.afterReload s.mode s.list file
+    let spBits := String.ofList (probes.map (fun p => if aclAllows s.mode sp.1 p then '1' else '0'))
+    let wellFormed := match file with | some ls => AclSpec.fileOk ls | none => false
     if b1 ≠ b2 then (s', .specfail "the per-worker cache and the shared list disagree", notes)
+    else if (s.mode != .off) && wellFormed && (res != "ok") then
+      (s', .specfail s!"a well-formed list file (blank / padded lines, either case) is refused: the new list is not in force, decisions stay {b1} instead of {spBits}", notes)
+    else if (s.mode != .off) && !wellFormed && (res == "ok") then
+      (s', .specfail s!"a reload of an unreadable / malformed file is reported as done; decisions {b1}, previous list would give {spBits}", notes)
+    else if spBits ≠ b1 then
+      (s', .specfail s!"decisions after the reload are {b1}, the statement gives {spBits}", notes)
     else if model ≠ s!"{res} {b1}" then (s', .mismatch s!"model={model}", notes)
     else (s', .ok, notes)
   | _, _ => (s, .bad "arity", [])
